@@ -1,0 +1,13 @@
+//go:build verif
+
+package salsa
+
+// Verification hook (add-only, compiled only with -tags verif): exports the
+// portable XORKeyStream so that a harness can compare it with the assembly
+// implementation selected by XORKeyStream inside one process.  Under
+// -tags purego (or on non-amd64) both names reach the same code.
+
+// VerifGenericXORKeyStream is genericXORKeyStream.
+func VerifGenericXORKeyStream(out, in []byte, counter *[16]byte, key *[32]byte) {
+	genericXORKeyStream(out, in, counter, key)
+}
